@@ -131,12 +131,14 @@ PROPS = {
     ),
     "C06": dict(
         rules=[R("borrow", "rule_borrow"), R("arith", "rule_arith"), R("arith", "rule_rem_zero"), R("arith", "rule_accum"),
-               R("arith", "rule_num_wrap")],
+               R("arith", "rule_num_wrap"), R("narrow", "rule_narrow"), R("narrow", "rule_vm_regs")],
         clause="Panic families visible in code shape: a RefCell guard of a shared container held across re-entrant or "
                "aliasing code (R-BORROW); script-supplied i64 values reaching overflow-/zero-/shift-checked arithmetic "
                "with no dominating guard of the needed kind (R-ARITH, R-REM-ZERO); digit accumulators in input-driven "
                "loops without a bound inside the loop (R-ACCUM); the number tower itself never uses checked integer "
-               "arithmetic (R-NUM-WRAP). Not decided: panic-freedom in general (unwrap/index sites justified by data "
+               "arithmetic (R-NUM-WRAP); the compiler's byte-width arithmetic and narrowing casts on program-size "
+               "quantities are bounded (R-NARROW), and the VM does not add to a frame's register count in byte "
+               "arithmetic (R-VM-REGS). Not decided: panic-freedom in general (unwrap/index sites justified by data "
                "invariants are out of scope and counted as undecided where met).",
         technique="guard live-range dataflow over MIR x whole-workspace call graph (CHA + callback-through-bounds "
                   "edges); Assert-terminator census with dominating-guard classification",
@@ -160,15 +162,19 @@ PROPS = {
     ),
     "C05": dict(
         rules=[R("enc", "rule_enc"), R("enc", "rule_handlers"), R("enc", "rule_enc_flags"),
-               R("placeholder", "rule_placeholder"), R("compiler", "rule_jump_checked"), R("compiler", "rule_det")],
+               R("placeholder", "rule_placeholder"), R("compiler", "rule_jump_checked"), R("compiler", "rule_det"),
+               R("narrow", "rule_narrow")],
         clause="Writer/reader layout agreement for every (emission site, opcode) pair (R-ENC), including the StringPush flags "
                "byte (R-ENC-FLAGS); every opcode and instruction has a consumer (R-HANDLERS); every jump placeholder is "
                "patched (R-PLACEHOLDER); jump distances are range-checked, never truncated (R-JUMP-CHECKED); no "
-               "hash-iteration order reaches the AST/bytecode (R-DET). Not decided: register/constant indices in range for "
-               "all programs, balance of sequence/string/try constructs along emitted paths, size limits below the u8 "
-               "register space.",
+               "hash-iteration order reaches the AST/bytecode (R-DET); every program-size quantity (lengths / indices of AST "
+               "lists, local, capture and argument counts) is compared with the operand range -- compilation refused on "
+               "the far side -- before it is narrowed to a byte, summed in byte arithmetic, or written where the reader "
+               "decodes a signed byte (R-NARROW). Not decided: register/constant indices in range for "
+               "all programs, balance of sequence/string/try constructs along emitted paths.",
         technique="writer/reader grammar extraction from MIR (macro-provenance of decoder reads, array types and emission "
-                  "continuations of encoder sites), typestate, def-use origin analysis, iterator taint",
+                  "continuations of encoder sites), typestate, def-use origin analysis, iterator taint, interval analysis "
+                  "of narrowing sites over named size leaves with dominating-guard bounds",
     ),
     "C07": dict(
         rules=[R("vm", "rule_regs"), R("vm", "rule_frames"), R("vm", "rule_catch_restore"), R("vm", "rule_import"),
